@@ -6,7 +6,7 @@ import os
 from .. import common, gen, lin, observe, probe
 from ..driver import CacheDriver, Mismatch
 from ..model import Ambiguous
-from ..sched import LateHandles, Recorder, Sched
+from ..sched import LateHandles, Recorder, Sched, store_gates
 
 PROP = 'C06'
 LEVEL = 'exploration'
@@ -364,6 +364,8 @@ def block_schedule(dc, sc, res, rng, label):
     caches = LateHandles(rng, n, lambda: dc.Cache(d, timeout=0), shared=setup if shared else None, reopen=0.0)
     sch = Sched(rng, clock, strategy=rng.choice(['random', 'preempt', 'random', 'ops']),
                 preempt_points={rng.randrange(0, 150) for _ in range(3)})
+    if store_gates(sch, rng, dc):
+        res.count('schedules_with_attribute_store_gates')
     rec = Recorder(sch)
     obs = observe.Observer(d)
     snapshots = []
